@@ -102,7 +102,7 @@ func vh_C17_matrix() {
 	ftypes := []int{1, 0, 2, 3, -1} // kind index that matches each field (-1: the field does not exist, nothing matches)
 	fi := vChoice("field", len(fields))
 	kind := vChoice("kind", 8)
-	route := vChoice("route", 4)
+	route := vChoice("route", 7)
 	payload := vSmallInt("payload")
 	var val Sexp
 	switch kind {
@@ -148,6 +148,12 @@ func vh_C17_matrix() {
 		form = vL(s("set"), dot, val)
 	case 2:
 		form = vL(s("infix"), vA(env, dot, s("="), val))
+	case 4: // the key spelled as a quoted symbol
+		form = vL(s("hset"), s("d"), vL(s("quote"), s(fields[fi])), val)
+	case 5: // ... inside a one-element array, which hset unwraps
+		form = vL(s("hset"), s("d"), vA(env, vL(s("quote"), s(fields[fi]))), val)
+	case 6: // infix indexing with the field symbol
+		form = vL(s("infix"), vA(env, s("d"), vA(env, vL(s("quote"), s(fields[fi]))), s("="), val))
 	default:
 		form = vL(s("def"), s("d2"), vL(s("Dog"), key, val))
 	}
